@@ -125,9 +125,11 @@ def run_cell(cell, seed):
         modr = build(cell)
         xr = util.make_input('randn', [cell['N'], cell['C']] + sp, seed + 23)
         if util.call_lib(modr, xr)[0]:
-            modr.load_state_dict(build(cell2).state_dict())
-            ok, y = util.call_lib(modr, xr)
-            out.append(judge(cell2, 'reload-randn', xr, ok, y))
+            if util.reload_in_place(modr, build(cell2)):
+                ok, y = util.call_lib(modr, xr)
+                out.append(judge(cell2, 'reload-randn', xr, ok, y))
+            else:
+                out.append(res(INCONCLUSIVE, {'cell': cell2, 'input': 'reload'}, 'M-REF', 'in-place reload of the q-shift buffers refused (different tap counts)'))
     x = util.make_input('randn', [1, 1] + sp, seed)
     if util.call_lib(mod, x)[0]:
         st, detail, info = util.linear_certificate(lambda t: mod(t), [x], [torch.zeros_like(x)])
